@@ -115,6 +115,48 @@ NAMESPACES: typing.Dict[str, typing.Dict[str, typing.Any]] = {
         "deps": {"x.Log.1.0": ["x.y.Inner.1.0"], "x.Packet.1.0": [], "x.y.Inner.1.0": [], "x.y.Packet.1.0": []},
     },
 }
+# types whose names coincide after a lossy conversion: CamelCase vs nested namespace (both X_FOO_BAR_1_0 as a macro) and
+# namespaces that differ only in letter case (PyDSDL accepts them).  `if` vs `_if` is left out: both strop to the same
+# output folder for C/C++ (one file overwrites the other - a matter of C11, not of C10).
+NAMESPACES["clash"] = {
+    "root": "x",
+    "files": {
+        "x/FooBar.1.0.dsdl": "uint8 v\n" + _S,
+        "x/foo/Bar.1.0.dsdl": "uint16 v\n" + _S,
+        "x/q/T.1.0.dsdl": "uint8 v\n" + _S,
+        "x/Q/T.1.0.dsdl": "uint16 v\n" + _S,
+    },
+    "deps": {"x.FooBar.1.0": [], "x.foo.Bar.1.0": [], "x.q.T.1.0": [], "x.Q.T.1.0": []},
+}
+# namespace components that need stropping in one target or another; the dependencies put them into #include/import lines
+NAMESPACES["strop"] = {
+    "root": "x",
+    "files": {
+        "x/register/A.1.0.dsdl": "x.if.D.1.0 d\nx.class.B.1.0 b\n" + _S,
+        "x/class/B.1.0.dsdl": "x.def.C.1.0 c\n" + _S,
+        "x/def/C.1.0.dsdl": "uint8 v\n" + _S,
+        "x/if/D.1.0.dsdl": "uint8 v\n" + _S,
+    },
+    "deps": {
+        "x.register.A.1.0": ["x.if.D.1.0", "x.class.B.1.0"],
+        "x.class.B.1.0": ["x.def.C.1.0"],
+        "x.def.C.1.0": [],
+        "x.if.D.1.0": [],
+    },
+}
+# language / generator configurations other than the default one (event option `variant`)
+VARIANTS: typing.Dict[str, typing.Dict[str, typing.Any]] = {
+    "prefix": {"overrides": {"stropping_prefix": "dsdl_"}},
+    "suffix": {"overrides": {"stropping_suffix": "_dsdl"}},
+    "nostrop": {"overrides": {"enable_stropping": False}, "langs": ["c", "cpp"]},
+    "reserved": {"reserve": ["y", "B", "D", "foo"]},
+    "asserts": {"options": {"enable_serialization_asserts": True}, "langs": ["c", "cpp"]},
+    "trim": {"gen": {"trim_blocks": True, "lstrip_blocks": True}},
+    "ext": {"extension": ".hh", "langs": ["c", "cpp"]},
+    "stem": {"stem": "ns_", "langs": ["py"]},
+    "pmr": {"options": {"std": "c++17-pmr"}, "langs": ["cpp"]},
+    "cetl": {"options": {"std": "cetl++14-17"}, "langs": ["cpp"]},
+}
 NS_DEEP = ["fan", "chain", "twin_a", "twin_b", "xroot"]  # namespaces of the depth >= 2 alphabets
 LANG_LIST = ["c", "cpp", "py"]
 CPP_STDS = ["c++17", "c++17-pmr", "cetl++14-17", "c++20"]  # non-default --language-standard flavours (default: c++14)
@@ -195,6 +237,7 @@ def event(
     support: bool = False,
     reuse_gen: bool = False,
     std: typing.Optional[str] = None,
+    variant: typing.Optional[str] = None,
 ) -> dict:
     """omit/audit = the omit_serialization_support / embed_auditing_info arguments of generate_all(); support = a
     SupportGenerator is created next to the DSDLCodeGenerator (create_default_generators, shared post-processor list) and
@@ -214,6 +257,7 @@ def event(
         "support": bool(support),
         "reuse_gen": bool(reuse_gen),
         "std": std,  # language option `std` (--language-standard), None = the language's default
+        "variant": variant,  # a key of VARIANTS: another language configuration / other generator arguments
     }
 
 
@@ -235,7 +279,7 @@ def ev_id(ev: dict) -> str:
         dev=";".join(":".join(map(str, d)) for d in ev["dev"]),
         r="reuse" if ev["reuse"] else "",
     )
-    return base + ("/" + _flags(ev) if flagged(ev) else "") + ("/std=" + ev["std"] if ev.get("std") else "")
+    return base + ("/" + _flags(ev) if flagged(ev) else "") + ("/std=" + ev["std"] if ev.get("std") else "") + ("/var=" + ev["variant"] if ev.get("variant") else "")
 
 
 def plain(ev: dict) -> dict:
@@ -245,14 +289,15 @@ def plain(ev: dict) -> dict:
 
 def ref_event(ev: dict, order: typing.Sequence[str]) -> dict:
     return event(
-        ev["ns"], order, ev["lang"], ev["tpl"], ev["pps"], omit=ev["omit"], audit=ev["audit"], support=ev["support"], std=ev.get("std")
+        ev["ns"], order, ev["lang"], ev["tpl"], ev["pps"], omit=ev["omit"], audit=ev["audit"], support=ev["support"], std=ev.get("std"),
+        variant=ev.get("variant"),
     )
 
 
 def ref_key(rev: dict) -> str:
     """Key of a reference event; types in GENERATION order (t first for closure references, sorted for set references)."""
     f = _flags(rev, ("omit", "audit", "support"))
-    lang = rev["lang"] + (":" + rev["std"] if rev.get("std") else "")
+    lang = rev["lang"] + (":" + rev["std"] if rev.get("std") else "") + ("~" + rev["variant"] if rev.get("variant") else "")
     return f"{rev['ns']}|{lang}|{rev['tpl']}|{rev['pps']}|{','.join(rev['S'])}" + ("|" + f if f else "")
 
 
@@ -304,7 +349,31 @@ def _site_filter(site: str) -> bool:
 
 
 def _maker(ev: dict) -> tuple:
-    return (ev["ns"], tuple(ev["S"]), ev["lang"], ev.get("std"), ev["tpl"], ev["pps"], ev["support"])
+    return (ev["ns"], tuple(ev["S"]), ev["lang"], ev.get("std"), ev.get("variant"), ev["tpl"], ev["pps"], ev["support"])
+
+
+def _language_context(ev: dict) -> typing.Any:
+    """The LanguageContext the way the CLI builds it: target, option overrides, configuration overrides of the variant."""
+    from nunavut.lang import Language, LanguageClassLoader, LanguageContextBuilder  # pylint: disable=import-outside-toplevel
+
+    b = LanguageContextBuilder(include_experimental_languages=True).set_target_language(ev["lang"])
+    v = VARIANTS.get(ev.get("variant") or "", {})
+    options = dict(v.get("options", {}))
+    if ev.get("std"):
+        options["std"] = ev["std"]
+    if "extension" in v:
+        b.set_target_language_extension(v["extension"])
+    if "stem" in v:
+        b.set_target_language_configuration_override(Language.WKCV_NAMESPACE_FILE_STEM, v["stem"])
+    for key, value in v.get("overrides", {}).items():
+        b.set_target_language_configuration_override(key, value)
+    if "reserve" in v:
+        section = LanguageClassLoader.to_language_module_name(ev["lang"])
+        current = list(b.config.get_config_value_as_list(section, "reserved_identifiers", default_value=[]))
+        b.set_target_language_configuration_override("reserved_identifiers", current + list(v["reserve"]))
+    if options:
+        b.set_target_language_configuration_override(Language.WKCV_LANGUAGE_OPTIONS, options)
+    return b.create()
 
 
 def _make_pps(name: str) -> typing.Optional[list]:
@@ -348,10 +417,10 @@ def run_event(ev: dict, lay: Layout) -> EvResult:
         parsed = pydsdl.read_namespace(str(root_dir), lookups, allow_unregulated_fixed_port_id=True)
         by_name = {str(t): t for t in parsed}
         sel = [by_name[n] for n in ev["S"]]
-        lkey = ev["lang"] + ":" + (ev.get("std") or "")
+        lkey = ev["lang"] + ":" + (ev.get("std") or "") + ":" + (ev.get("variant") or "")
         lctx = _SHARED.get(lkey) if ev["reuse"] else None
         if lctx is None:
-            lctx = gen.language_context(ev["lang"], {"std": ev["std"]} if ev.get("std") else None)
+            lctx = _language_context(ev)
         _SHARED[lkey] = lctx
         with permset.scheduled(sched):
             if ev["reuse_gen"]:
@@ -361,6 +430,7 @@ def run_event(ev: dict, lay: Layout) -> EvResult:
                 kwargs: typing.Dict[str, typing.Any] = {"post_processors": _make_pps(ev["pps"])}
                 if ev["tpl"] in ("user", "userx"):
                     kwargs["templates_dir"] = lay.tpl / (ev["lang"] if ev["tpl"] == "user" else ev["lang"] + "_x")
+                kwargs.update(VARIANTS.get(ev.get("variant") or "", {}).get("gen", {}))
                 if ev["support"]:
                     g, sg = create_default_generators(ns, **kwargs)  # both share the post-processor list (as the CLI does)
                 else:
@@ -815,6 +885,31 @@ def full_alphabet() -> typing.List[typing.Tuple[dict, bool]]:
     return out
 
 
+def option_histories() -> typing.List[typing.Tuple[dict, dict]]:
+    """[a run with configuration v1 ; a run with configuration v2 != v1 for the same target, every object new] for every
+    ordered pair of {default} + VARIANTS that apply to the target; compared with the fresh-process run with v2."""
+    out = []
+    for ns in ("strop", "fan"):
+        names = sorted(NAMESPACES[ns]["deps"])
+        for lang in LANG_LIST:
+            vs: typing.List[typing.Optional[str]] = [None]
+            vs += [v for v, d in VARIANTS.items() if lang in d.get("langs", LANG_LIST)]
+            for v1 in vs:
+                for v2 in vs:
+                    if v1 != v2:
+                        out.append((event(ns, names, lang, "builtin", "none", variant=v1), event(ns, names, lang, "builtin", "none", variant=v2)))
+    return out
+
+
+def _core_o(a: dict, b: dict) -> bool:
+    if a["ns"] != "strop":
+        return False
+    pair = (a["variant"], b["variant"])
+    return pair in (("prefix", None), (None, "prefix"), ("nostrop", None), ("suffix", None), ("reserved", None)) or (
+        pair == ("asserts", None) and a["lang"] == "c"
+    )
+
+
 def cross_language_histories() -> typing.List[typing.Tuple[dict, dict]]:
     """[an earlier run for target Y (built-in templates, or a userx template) ; a userx run for target X]"""
     out = []
@@ -867,10 +962,14 @@ def generator_reuse_histories() -> typing.List[typing.Tuple[dict, dict]]:
                             e1 = event(ns, names, lang, tpl, pps, omit=o1, audit=a1, support=support)
                             for o2, a2 in FLAG_PAIRS:
                                 out.append((e1, dict(e1, omit=o2, audit=a2, reuse_gen=True)))
+                                out.append((e1, dict(e1, omit=o2, audit=a2)))  # all objects new, same process
     return out
 
 
 def _core1(ev: dict) -> bool:
+    if ev["ns"] == "clash":  # the two pairs of coinciding names, both orders, C and C++
+        pairs = ({"x.FooBar.1.0", "x.foo.Bar.1.0"}, {"x.q.T.1.0", "x.Q.T.1.0"})
+        return ev["lang"] in ("c", "cpp") and ev["tpl"] == "builtin" and ev["pps"] == "none" and set(ev["S"]) in pairs
     if ev.get("std") or ev["tpl"] == "userx":  # all types of the namespace, in sorted and in reversed order
         whole = len(ev["S"]) == len(NAMESPACES[ev["ns"]]["deps"]) and ev["S"] in (sorted(ev["S"]), sorted(ev["S"], reverse=True))
         return whole and ev["ns"] == ("same" if ev.get("std") else "fan")
@@ -920,14 +1019,14 @@ def run(ctx: Ctx) -> int:
     in_child(_verify_deps, lay)  # in a fork: the main interpreter must stay pristine (workers are forked from it)
     scratch = str(ctx.scratch)
 
-    # ---- enumerate histories (deterministic; quick = core + seed slice: 1/16 of depth 1, 1/96 of depth 2, 1/48 of the
-    # generator-object histories - thinner than 1/16 to keep the quick tier within ~350 CPU seconds)
+    # ---- enumerate histories (deterministic; quick = core + seed slice: 1/16 of depth 1, 1/96 of depth 2, 1/96 of the
+    # generator-object / option histories - thinner than 1/16 to keep the quick tier within ~350 CPU seconds)
     d1: typing.Dict[str, typing.Tuple[dict, bool]] = {}
     d1_space = 0
     for ev, sigma in full_alphabet():
         d1_space += 1
-        added_later = ev["ns"] == "same" or ev.get("std") or ev["tpl"] == "userx"  # thinner slice: quick CPU budget
-        if ctx.thorough or _core1(ev) or ctx.in_slice("d1|" + ev_id(ev), 48 if added_later else 16):
+        added_later = ev["ns"] in ("same", "clash", "strop") or ev.get("std") or ev["tpl"] == "userx"  # thinner slice: quick CPU budget
+        if ctx.thorough or _core1(ev) or ctx.in_slice("d1|" + ev_id(ev), 64 if added_later else 16):
             d1[ev_id(ev)] = (ev, sigma)
     P2 = prefix_alphabet(NS_DEEP, ["none", "limit"])
     L2 = last_alphabet(NS_DEEP, PPS)
@@ -963,6 +1062,11 @@ def run(ctx: Ctx) -> int:
             "depth 3 is explored over a reduced alphabet (namespaces twin_a/twin_b/fan, one language per history, "
             "pps=limit in the prefix, LanguageContext reuse pattern in {never, always, prefix only})"
         )
+    o_space = 0
+    for a, b in option_histories():
+        o_space += 1
+        if ctx.thorough or _core_o(a, b) or ctx.in_slice("o|" + ev_id(a) + ">" + ev_id(b), 96):
+            deep.setdefault("o|" + ev_id(a), ([a], []))[1].append(b)
     x_space = 0
     for a, b in cross_language_histories():  # cheap (user templates): all of them in both tiers
         x_space += 1
@@ -970,8 +1074,9 @@ def run(ctx: Ctx) -> int:
     g_space = 0
     for a, b in generator_reuse_histories():
         g_space += 1
-        if ctx.thorough or _core_g(a, b) or ctx.in_slice("g|" + ev_id(a) + ">" + ev_id(b), 48):
+        if ctx.thorough or _core_g(a, b) or ctx.in_slice("g|" + ev_id(a) + ">" + ev_id(b), 96):
             deep.setdefault("g|" + ev_id(a), ([a], []))[1].append(b)
+    g_sel = sum(len(lasts) for key, (_, lasts) in deep.items() if key.startswith("g|"))
     ctx.cap(
         "depth >= 2: prefix events use the full type set in sorted order with pps in {none, limit} "
         "(TrimTrailingWhitespace is stateless, hence symmetric to none as a prefix); last events use S in "
@@ -1118,8 +1223,8 @@ def run(ctx: Ctx) -> int:
             f"every dependency-closed subset x every permutation x 3 languages x 2 template sets x 3 pps, + C++ standards "
             f"{CPP_STDS} and cross-language unique-name templates on 2 namespaces) + nested-namespace "
             f"schedules with <={'2' if ctx.thorough else '1'} deviation(s) on sorted order + {extra1} option events; "
-            f"depth 2: {by_depth[2] - same_generator}/{d2_space + x_space} (incl. {x_space} cross-language unique-name histories); generator object used twice with "
-            f"(omit, auditing) flag transitions: {same_generator}/{g_space}; depth 3: {by_depth[3]}/{d3_space}; "
+            f"depth 2: {by_depth[2] - g_sel}/{d2_space + x_space + o_space} (incl. {x_space} cross-language unique-name histories and {o_space} configuration-change histories); generator object used twice with "
+            f"(omit, auditing) flag transitions, and the same transitions with all objects new: {g_sel}/{g_space}; depth 3: {by_depth[3]}/{d3_space}; "
             f"{len(need)} fresh-process references"
         ),
         "exhaustive": False,
